@@ -1210,3 +1210,8 @@ B('C11', 'constructor recorded whatever type variables its type mentions', 'serv
   "                if any(tv not in resT.args for tv in constr_type.get_tvars()):\n                    raise ItemException(\"Datatype %s: %s has a type variable that is not a parameter of the datatype\" % (\n                        self.name, constr['name']))\n", "", 'C11.D11', 'type-variables-are-parameters')
 N('C11', 'type variables of a constructor tested with all()', 'server/items.py',
   "                if any(tv not in resT.args for tv in constr_type.get_tvars()):", "                if not all(tv in resT.args for tv in constr_type.get_tvars()):")
+B('C08', 'occurs check on the sets as recorded', 'syntax/infertype.py',
+  "        todo = list(new_reach)\n        while todo:\n            for j in reach[todo.pop()]:\n                if j not in new_reach:\n                    new_reach.add(j)\n                    todo.append(j)\n", "", 'C08.U12', '')
+N('C08', 'closure loop with an explicit work list index', 'syntax/infertype.py',
+  "        todo = list(new_reach)\n        while todo:\n            for j in reach[todo.pop()]:\n                if j not in new_reach:\n                    new_reach.add(j)\n                    todo.append(j)\n",
+  "        todo = list(new_reach)\n        while len(todo) > 0:\n            cur = todo.pop()\n            for j in reach[cur]:\n                if j in new_reach:\n                    continue\n                new_reach.add(j)\n                todo.append(j)\n")
